@@ -264,8 +264,8 @@ Fixpoint splitlines_go (s cur : str) : list str :=
   | c :: s' =>
     if (c =? 13) then
       match s' with
-      | 10 :: s'' => rev cur :: splitlines_go s'' []
-      | _ => rev cur :: splitlines_go s' []
+      | d :: s'' => if d =? 10 then rev cur :: splitlines_go s'' [] else rev cur :: splitlines_go s' []
+      | [] => rev cur :: splitlines_go s' []
       end
     else if (c =? 10) || (c =? 11) || (c =? 12) || (c =? 28) || (c =? 29) || (c =? 30) || (c =? 133)
             || (c =? 8232) || (c =? 8233)
